@@ -1,7 +1,8 @@
 (** C15 - The wallet's view of the chain tip follows the backend through reorgs.
     Property theorems only; proofs are in Sync/SyncProofs.v, the model in
     Sync/Sync.v (connectBlock, disconnectBlock, addRelevantTx, PutSyncedTo,
-    the rollback loop of syncWithChain, catchUpHashes).
+    syncWithChain: first synchronisation, rollback loop, birthday reset;
+    catchUpHashes).
 
     Premise regenerated from the source (Generated/SyncFacts.v):
     [disconnect_records_parent_hash = true] - disconnectBlock hands the
@@ -122,6 +123,117 @@ Theorem C15_startup_follows : forall hdr p a b lo w txs,
 Proof. intros hdr. exact (startup_follows hdr eq_refl). Qed.
 Print Assumptions C15_startup_follows.
 
+(** First start of a wallet (no birthday block stored, no confirmed record -
+    in particular a freshly created one): [loc] is the block
+    locateBirthdayBlock returned, any height of the backend's chain [B].
+    syncWithChain stores the backend's block of that height as synced-to and
+    [loc] as birthday block, the loop that follows changes nothing, and after
+    the rescan's notifications and RescanFinished the wallet is consistent
+    with [B], followed from the located height. *)
+Theorem C15_first_sync_follows : forall hdr B loc w txs,
+  birthday_set w = false -> mined w = [] ->
+  headers_known hdr B -> 0 <= m_height loc <= tip_height B ->
+  Forall (rescan_ntfn B) txs ->
+  exists w0 w1 w2,
+    startup true B hdr loc w = (w0, false) /\
+    m_height (synced w0) = m_height loc /\ birthday_set w0 = true /\ bday w0 = loc /\
+    run hdr txs w0 = (w1, false) /\
+    rescan_finished B hdr (tip_height B) w1 = (w2, false) /\
+    chain_synced w2 = true /\
+    consistent hdr B (Z.max (m_height loc) (tip_height B - max_reorg_depth + 1)) w2.
+Proof. intros hdr B loc w txs Hb Hm. exact (first_sync_follows hdr eq_refl B loc w txs Hb Hm eq_refl). Qed.
+Print Assumptions C15_first_sync_follows.
+
+(** ... and right after that first attempt's transactions (before the
+    rescan) the wallet is consistent with [B] cut at the located height. *)
+Theorem C15_first_start : forall hdr B loc w,
+  birthday_set w = false -> mined w = [] ->
+  headers_known hdr B -> 0 <= m_height loc <= tip_height B ->
+  exists w0, startup true B hdr loc w = (w0, false) /\
+    birthday_set w0 = true /\ bday w0 = loc /\ mined w0 = [] /\ unmined w0 = unmined w /\
+    chain_synced w0 = chain_synced w /\ m_height (synced w0) = m_height loc /\
+    consistent hdr (take (S (Z.to_nat (m_height loc))) B) (m_height loc) w0.
+Proof. intros hdr B loc w Hb Hm. exact (first_startup_spec hdr B loc w Hb Hm eq_refl). Qed.
+Print Assumptions C15_first_start.
+
+(** The start-up rollback may cross the stored birthday block ([lo] then lies
+    at or below the fork point: C15_startup_rollback covers it - the
+    birthday-reset branch cannot make the transaction fail).  What the branch
+    is for: a birthday block that was on the wallet's chain is on the common
+    prefix afterwards (block hashes are unique on the wallet's chain). *)
+Theorem C15_startup_birthday_stays_on_chain : forall hdr p a b lo w w',
+  consistent hdr (p ++ a) lo w -> p <> [] -> diverge a b -> (length a <= length b)%nat ->
+  headers_known hdr (p ++ b) -> a <> [] -> disc_ok lo (tip_height p + 1) = true ->
+  birthday_set w = true ->
+  (forall h1 h2 b1 b2, chain_at (p ++ a) h1 = Some b1 -> chain_at (p ++ a) h2 = Some b2 ->
+                       bh b1 = bh b2 -> h1 = h2) ->
+  on_chain (p ++ a) (m_height (bday w)) (m_hash (bday w)) ->
+  sync_rollback (p ++ b) hdr w = (w', false) ->
+  birthday_set w' = true /\ on_chain p (m_height (bday w')) (m_hash (bday w')).
+Proof. exact sync_rollback_birthday. Qed.
+Print Assumptions C15_startup_birthday_stays_on_chain.
+
+(** PARTIAL (what the code gives where the premises of C15_startup_rollback
+    fail).
+
+    The backend's best chain is lower than the wallet's synced-to height
+    (whatever the two chains have in common): the attempt fails in the first
+    GetBlockHash of the loop and changes nothing.  Missing with respect to
+    the property: the wallet does NOT roll back to the last common block; it
+    does not rescan either (ChainSynced stays false), waitForSync repeats the
+    attempt, and the roll-back of C15_startup_rollback happens in the first
+    attempt that finds the backend at least as high as the wallet. *)
+Theorem C15_startup_backend_lower_partial : forall hdr B loc w,
+  tip_height B < m_height (synced w) ->
+  sync_rollback B hdr w = (w, true) /\ startup false B hdr loc w = (w, true).
+Proof.
+  intros hdr B loc w H. split; [by apply sync_rollback_backend_lower|by apply startup_backend_lower].
+Qed.
+Print Assumptions C15_startup_backend_lower_partial.
+
+(** PARTIAL.  The fork point lies below the heights the wallet remembers (the
+    last common block is below [lo] and no hash is stored for [lo - 1]:
+    pruned by PutSyncedTo, or below the birthday block of a wallet that
+    started there): the loop reaches [lo - 1], BlockHash fails, the attempt
+    fails and changes nothing - in every repetition, as long as the backend
+    stays on that branch.  The property promises nothing outside the window;
+    the code's answer is a wallet that never synchronises again. *)
+Theorem C15_startup_fork_below_window_partial : forall hdr p a b lo w,
+  consistent hdr (p ++ a) lo w -> diverge a b -> (length a <= length b)%nat ->
+  headers_known hdr (p ++ b) -> tip_height p < lo -> hashes w !! (lo - 1) = None ->
+  sync_rollback (p ++ b) hdr w = (w, true).
+Proof. exact sync_rollback_fork_below_window. Qed.
+Print Assumptions C15_startup_fork_below_window_partial.
+
+(** PARTIAL (found while modelling the first synchronisation; outside the
+    property's quantifier - it needs a backend failure after the first
+    transaction of syncWithChain, e.g. NotifyBlocks or the rescan request
+    returning an error): waitForSync repeats the attempt with the same nil
+    birthday argument, the first-synchronisation transaction runs again - now
+    with a birthday block stored, so under the predecessor check of
+    PutSyncedTo - and fails for every located height above 1 (the hash of
+    the height below it was never stored).  The wallet cannot finish its
+    first synchronisation until the backend reconnects or the wallet is
+    restarted. *)
+Theorem C15_first_sync_repeated_partial : forall hdr B loc w,
+  birthday_set w = true -> 0 < m_height loc -> hashes w !! (m_height loc - 1) = None ->
+  first_sync B hdr loc w = (w, true) /\ startup true B hdr loc w = (w, true).
+Proof. exact first_sync_repeated. Qed.
+Print Assumptions C15_first_sync_repeated_partial.
+
+(** RescanProgress / RescanFinished naming a height the wallet has already
+    reached (the only ones the dispatch switch can meet outside a start-up
+    without a race): catchUpHashes changes nothing. *)
+Theorem C15_rescan_notification_behind : forall hdr B height w,
+  height <= m_height (synced w) ->
+  catch_up B hdr height w = (w, false) /\
+  rescan_finished B hdr height w = (set_chain_synced true w, false).
+Proof.
+  intros hdr B height w H. pose proof (catch_up_behind hdr B height w H) as E.
+  split; [done|]. unfold rescan_finished. by rewrite E.
+Qed.
+Print Assumptions C15_rescan_notification_behind.
+
 (** * The pinned tree (finding S1) *)
 
 Definition ex_hdr : gmap N Z :=
@@ -235,7 +347,7 @@ Example C15_nonvacuous_startup :
   let b := map ex_blk [7; 8; 9]%nat in
   let w := {| synced := meta_of 5 (ex_blk 6);
               hashes := list_to_map [(0, 1%N); (1, 2%N); (2, 3%N); (3, 4%N); (4, 5%N); (5, 6%N)];
-              birthday_set := true; chain_synced := false;
+              birthday_set := true; bday := meta_of 0 (ex_blk 1); chain_synced := false;
               mined := [{| r_tx := 1%N; r_height := 3; r_hash := 4%N; r_cb := false |};
                         {| r_tx := 2%N; r_height := 4; r_hash := 5%N; r_cb := false |}];
               unmined := [] |} in
@@ -248,6 +360,62 @@ Proof.
   - intros i x y Hx Hy. destruct i as [|[|[|i]]]; simpl in *; simplify_eq; done.
   - eexists. split; [vm_compute; reflexivity|]. vm_compute. repeat split.
 Qed.
+
+(** First start of a new wallet on a chain of 7 blocks, located birthday
+    block 3; tx 1 is found by the rescan in block 5. *)
+Example C15_nonvacuous_first_sync :
+  let B := map ex_blk [1; 2; 3; 4; 5; 6; 7]%nat in
+  let loc := meta_of 3 (ex_blk 4) in
+  let w := new_wallet (ex_blk 1) in
+  exists w0 w1 w2,
+    startup true B ex_hdr loc w = (w0, false) /\ synced w0 = loc /\ bday w0 = loc /\
+    run_with true ex_hdr [NTx 1 false (Some (meta_of 5 (ex_blk 6)))] w0 = (w1, false) /\
+    rescan_finished B ex_hdr 6 w1 = (w2, false) /\
+    synced w2 = meta_of 6 (ex_blk 7) /\
+    map (fun h => hashes w2 !! h) [0; 1; 2; 3; 4; 5; 6] = [Some 1; None; None; Some 4; Some 5; Some 6; Some 7]%N /\
+    map r_tx (mined w2) = [1%N].
+Proof.
+  cbv zeta. eexists _, _, _.
+  split; [vm_compute; reflexivity|]. split; [vm_compute; reflexivity|]. split; [vm_compute; reflexivity|].
+  split; [vm_compute; reflexivity|]. split; [vm_compute; reflexivity|].
+  vm_compute. repeat split.
+Qed.
+
+(** The start-up rollback crosses the birthday block: a wallet whose birthday
+    block is block 1 (height 1), synced to height 3; offline every block
+    above genesis was replaced.  The loop stops at genesis, the birthday
+    block becomes the genesis block, tx 2 (confirmed at height 2) is
+    unconfirmed again. *)
+Example C15_nonvacuous_birthday_crossed :
+  let p := [ex_blk 1] in
+  let a := map ex_blk [2; 3; 4]%nat in
+  let b := map ex_blk [5; 6; 7]%nat in
+  let w := {| synced := meta_of 3 (ex_blk 4);
+              hashes := list_to_map [(0, 1%N); (1, 2%N); (2, 3%N); (3, 4%N)];
+              birthday_set := true; bday := meta_of 1 (ex_blk 2); chain_synced := false;
+              mined := [{| r_tx := 2%N; r_height := 2; r_hash := 3%N; r_cb := false |}];
+              unmined := [] |} in
+  diverge a b /\ disc_ok 0 (tip_height p + 1) = true /\ crosses_birthday (meta_of 0 (ex_blk 1)) w = true /\
+  exists w', sync_rollback (p ++ b) ex_hdr w = (w', false) /\
+    synced w' = meta_of 0 (ex_blk 1) /\ bday w' = meta_of 0 (ex_blk 1) /\
+    mined w' = [] /\ unmined w' = [2%N].
+Proof.
+  cbv zeta. split; [|split; [reflexivity|split; [reflexivity|]]].
+  - intros i x y Hx Hy. destruct i as [|[|[|i]]]; simpl in *; simplify_eq; done.
+  - eexists. split; [vm_compute; reflexivity|]. vm_compute. repeat split.
+Qed.
+
+(** The two partial cases: the backend two blocks lower than the wallet; and
+    a wallet that remembers heights 0 and 3..5 (birthday block at 3) whose
+    chain was replaced from height 2 up. *)
+Example C15_nonvacuous_partial :
+  let w := {| synced := meta_of 5 (ex_blk 6);
+              hashes := list_to_map [(0, 1%N); (3, 4%N); (4, 5%N); (5, 6%N)];
+              birthday_set := true; bday := meta_of 3 (ex_blk 4); chain_synced := false;
+              mined := []; unmined := [] |} in
+  sync_rollback (map ex_blk [1; 2; 3; 4]%nat) ex_hdr w = (w, true) /\
+  sync_rollback (map ex_blk [1; 2; 8; 9; 10; 11; 12]%nat) ex_hdr w = (w, true).
+Proof. cbv zeta. split; vm_compute; reflexivity. Qed.
 
 (** * Composition with the transaction-store development (Sync/SyncStore.v)
 
